@@ -457,3 +457,25 @@ Section LoopTotal.
       destruct (2 * n_anodes a + 1 - k)%nat as [|f'] eqn:Ef; [lia|]. cbn [ser_loop]. eauto.
   Qed.
 End LoopTotal.
+
+(* everything about the serializer at once, with no premise on its outcome *)
+From Clvm Require Import Proofs.SerBRMain.
+
+Theorem ser_br_all H : (forall t1 t2, treehash H t1 = treehash H t2 -> t1 = t2) ->
+  forall t, wf_sexp t = true -> atoms_u32 t = true -> 6 * N.of_nat (n_nodes t) + 1 <= U32MAX ->
+  exists bs, node_to_bytes_backrefs H t = Ok bs /\
+    de_br_spec bs = Ok (t, []) /\
+    snd (node_from_stream_backrefs bs) = Ok (t, []) /\
+    snd (node_from_stream_backrefs_old bs) = Ok (t, []) /\
+    serialized_length_from_bytes bs = Ok (blen bs) /\
+    is_canonical_serialization bs = BTrue /\
+    (forall e, ser t = Some e -> blen e < 4294967291 -> blen bs <= blen e) /\
+    (forall t' rest, snd (node_from_stream_backrefs bs) = Ok (t', rest) -> node_to_bytes_backrefs H t' = Ok bs).
+Proof.
+  intros Hinj t Hwf Hat Hn. destruct (ser_br_total H Hinj t Hat Hn) as [bs Hbs]. exists bs.
+  destruct (ser_br_roundtrip H Hinj t bs Hwf Hbs) as (R1 & R2 & R3 & R4).
+  split; [exact Hbs|]. split; [exact R1|]. split; [exact R2|]. split; [exact R3|]. split; [exact R4|].
+  split; [exact (ser_br_canonical H Hinj t bs Hwf Hbs)|]. split.
+  - intros e He Hl. exact (ser_br_never_grows H Hinj t bs e Hwf Hbs He Hl).
+  - intros t' rest Hd. exact (ser_br_idempotent H Hinj t bs t' rest Hwf Hbs Hd).
+Qed.
